@@ -114,4 +114,16 @@ def num_variables_qpt (dim : Int) (on_para_eq_constraint : Bool) : Int :=
 def num_variables_qmpt (dim : Int) (m : Int) (on_para_eq_constraint : Bool) : Int :=
   if on_para_eq_constraint = true then ((m * (dim ^ (4 : Nat))) - (dim ^ (2 : Nat))) else (m * (dim ^ (4 : Nat)))
 
+/-- quara/objects/qoperation.py:657 `QOperation.generate_from_var`: `on_para_eq_constraint = self.on_para_eq_constraint if on_para_eq_constraint is None else on_para_eq_constraint` -/
+def generate_from_var_flag (self_flag : Bool) (on_para_eq_constraint : Option Bool) : Bool :=
+  match on_para_eq_constraint with
+  | none => self_flag
+  | some requested => requested
+
+/-- quara/objects/mprocess.py:583 `MProcess.generate_from_var`: `on_para_eq_constraint = self.on_para_eq_constraint if on_para_eq_constraint is None else on_para_eq_constraint` -/
+def generate_from_var_flag_mprocess (self_flag : Bool) (on_para_eq_constraint : Option Bool) : Bool :=
+  match on_para_eq_constraint with
+  | none => self_flag
+  | some requested => requested
+
 end QGen.C03
